@@ -210,9 +210,10 @@ SUBCHECKS = [
                               "and the predecessor/successor converse", rule=RULE),
     SubCheck("vertices_k8_12", evaluate_vertex, strategy=big_vertices, examples=(1500, 20000), shards=(4, 16),
              rule=RULE),
-    SubCheck("complete_accessor", evaluate_complete, enum=(lambda tier: 6 if tier == "quick" else 7,
-                                                           lambda i, tier: {"k": i + 1}), shards=(6, 7),
-             exhaustive_space="complete accessors of order 1..6 (7 thorough), every entry", rule=RULE),
+    SubCheck("complete_accessor", evaluate_complete, enum=(lambda tier: 6 if tier == "quick" else 9,
+                                                           lambda i, tier: {"k": [1, 2, 3, 4, 5, 6, 7, 9, 11][i]}),
+             shards=(6, 9), timeout=900.0,
+             exhaustive_space="complete accessors of order 1..6 (thorough: also 7, 9 and 11 = 4,194,304 rows), every entry", rule=RULE),
     SubCheck("produced_graphs", evaluate_produced, strategy=produced_cases, examples=(1200, 12000), shards=(8, 16),
              floors={"how:valid": 80, "how:coding": 80, "how:latter_map": 80, "how:matrix": 80, "how:nasty": 80,
                      "how:via_latter_map": 80,
